@@ -192,6 +192,7 @@ pub fn poll_read(c: &Conn, cx: &mut Context<'_>, b: &mut [u8]) -> Poll<io::Resul
         drop(p);
         fire(w);
         engine::log("s-read", c.id as u64, n as u64);
+        crate::alloc::begin_input(n);
         return Poll::Ready(Ok(n));
     }
     if p.closed {
